@@ -21,6 +21,7 @@ type lstate struct {
 	defers  uint32
 	pend    int32 // id of the call whose error nil-ness is pending, -1 none
 	pendNil int8  // 1 nil, 2 non-nil
+	pendB   uint16 // pending facts about the call's boolean results (2 bits per result index: 1 false, 2 true)
 	dead    bool  // blocked forever (self-acquisition)
 }
 
@@ -316,10 +317,15 @@ func (fa *funcAn) edge(st lstate, from *ssa.BasicBlock, succ int) (lstate, bool)
 			if x, nilSucc, ok := an.NilTest(ifi); ok {
 				if call, _ := an.CallOf(x); call != nil && fa.callID[call] == st.pend && an.IsErrorType(x.Type()) {
 					isNil := succ == nilSucc
-					if (st.pendNil == 1) != isNil {
-						return st, false
+					if st.pendNil != 0 {
+						if (st.pendNil == 1) != isNil {
+							return st, false
+						}
+						st.pendNil = 0
+						if st.pendB == 0 {
+							st.pend = -1
+						}
 					}
-					st.pend, st.pendNil = -1, 0
 				}
 			}
 		}
@@ -330,10 +336,24 @@ func (fa *funcAn) edge(st lstate, from *ssa.BasicBlock, succ int) (lstate, bool)
 				if call, isCall := ex.Tuple.(*ssa.Call); isCall && fa.callID[call] == st.pend {
 					if bt, isB := ex.Type().Underlying().(*types.Basic); isB && bt.Kind() == types.Bool {
 						isTrue := (succ == 0) != neg
-						if (st.pendNil == 1) != isTrue {
-							return st, false
+						nres := call.Call.Signature().Results().Len()
+						if ex.Index == nres-1 && st.pendNil != 0 {
+							// trailing `ok bool`: plays the part of the error (true ~ nil)
+							if (st.pendNil == 1) != isTrue {
+								return st, false
+							}
+							st.pendNil = 0
+						} else if ex.Index < 8 {
+							if f := (st.pendB >> (2 * uint(ex.Index))) & 3; f != 0 {
+								if (f == 2) != isTrue {
+									return st, false
+								}
+								st.pendB &^= 3 << (2 * uint(ex.Index))
+							}
 						}
-						st.pend, st.pendNil = -1, 0
+						if st.pendNil == 0 && st.pendB == 0 {
+							st.pend = -1
+						}
 					}
 				}
 			}
@@ -532,6 +552,17 @@ func (fa *funcAn) instr(st lstate, in ssa.Instruction) []lstate {
 					ex.errNil = 1
 				case 1:
 					ex.errNil = 2
+				}
+			}
+		}
+		// other boolean results (e.g. `created bool` in the middle of the result list)
+		for k := 0; k < len(x.Results) && k < 8; k++ {
+			if k == len(x.Results)-1 && !an.IsErrorType(x.Results[k].Type()) {
+				continue // trailing ok handled above
+			}
+			if bt, isB := x.Results[k].Type().Underlying().(*types.Basic); isB && bt.Kind() == types.Bool {
+				if v := fa.boolResult(x.Results[k], x); v != 0 {
+					ex.bools |= uint16(v) << (2 * uint(k))
 				}
 			}
 		}
@@ -1012,9 +1043,9 @@ func (fa *funcAn) apply(st lstate, call ssa.CallInstruction, t target) []lstate 
 		n := st
 		n.held = ex.held
 		n.rel = st.rel | ex.rel
-		if (len(distinct) > 1 || uniform) && ex.errNil != 0 {
+		if (len(distinct) > 1 || uniform) && (ex.errNil != 0 || ex.bools != 0) {
 			if _, isCall := call.(*ssa.Call); isCall {
-				n.pend, n.pendNil = fa.callID[call], ex.errNil
+				n.pend, n.pendNil, n.pendB = fa.callID[call], ex.errNil, ex.bools
 			}
 		}
 		out = append(out, n)
